@@ -618,3 +618,215 @@ def copy_siblings(ctx, res, only):
 
 for _k in ("list", "dict", "set"):
     _copy_rule(_k)
+
+
+# ---------------------------------------------------------------------------
+# C04.init-order: constructors set the attributes their helpers read first
+
+def _self_reads(fn, selfn):
+    """attributes of self a method reads (self.a / getattr(self, 'a', ...))"""
+    out = set()
+    for n in ast.walk(fn):
+        if isinstance(n, ast.Attribute) and isinstance(n.ctx, ast.Load) \
+                and isinstance(n.value, ast.Name) and n.value.id == selfn:
+            out.add(n.attr)
+        if isinstance(n, ast.Call) and isinstance(n.func, ast.Name) \
+                and n.func.id == "getattr" and len(n.args) >= 2 \
+                and isinstance(n.args[0], ast.Name) \
+                and n.args[0].id == selfn \
+                and isinstance(n.args[1], ast.Constant):
+            out.add(n.args[1].value)
+    return out
+
+
+@rule("C04.init-order", ["C04", "C14"],
+      "Trait*Object constructors assign the attributes (trait, object, name, "
+      "...) before the first call of a helper that reads them - a length or "
+      "item check run earlier sees the attribute missing and silently "
+      "accepts")
+def init_order(ctx, res):
+    repo, classes = container_classes(ctx)
+    n = 0
+    for kind, (mod, base, obj) in classes.items():
+        init = obj.methods.get("__init__")
+        if init is None:
+            raise AnalysisError(f"{obj.name}.__init__ missing")
+        selfn = init.args.args[0].arg
+        own_stores = {}
+        for st in ast.walk(init):
+            if isinstance(st, ast.Assign):
+                for t in st.targets:
+                    if is_self_attr(t, None, selfn):
+                        own_stores.setdefault(t.attr, st.lineno)
+        assigned = set()
+        key = f"{obj.name}.__init__"
+        res.instance(key, mod.loc(init), stores=sorted(own_stores))
+        n += 1
+        bad = []
+
+        def uses_of(e):
+            """(helper name, attributes it reads) for helpers invoked or
+            handed out as bound methods by expression ``e``"""
+            out = []
+            for x in ast.walk(e):
+                if isinstance(x, ast.Attribute) and isinstance(x.value, ast.Name) \
+                        and x.value.id == selfn and x.attr in obj.methods:
+                    m = obj.methods[x.attr]
+                    msel = m.args.args[0].arg if m.args.args else "self"
+                    out.append((x.attr, _self_reads(m, msel), x))
+            return out
+        for st in init.body:
+            # evaluate right-hand sides / calls first, then the stores
+            for x in ast.walk(st):
+                if isinstance(x, (ast.Call, ast.keyword)):
+                    pass
+            for helper, reads, node in uses_of(st):
+                missing = sorted(a for a in reads
+                                 if a in own_stores and a not in assigned)
+                if missing:
+                    bad.append((helper, missing, node))
+            for x in ast.walk(st):
+                if isinstance(x, ast.Assign):
+                    for t in x.targets:
+                        if is_self_attr(t, None, selfn):
+                            assigned.add(t.attr)
+        for helper, missing, node in bad:
+            res.violation(f"{key}:{helper}:before:{'+'.join(missing)}",
+                          mod.loc(node),
+                          f"{key} uses self.{helper} before assigning "
+                          f"self.{', self.'.join(missing)}, which that helper "
+                          f"reads: run this early the check degenerates (a "
+                          f"missing `trait` means 'no constraint'), so e.g. "
+                          f"an out-of-bounds default list is accepted")
+        if not bad:
+            res.oblige(True, key, "", "")
+    res.floor(3)
+
+
+# ---------------------------------------------------------------------------
+# C0x.single-pass: a caller's iterable is traversed at most once
+
+NON_CONSUMING = {"isinstance", "hasattr", "len", "type", "callable", "id",
+                 "bool", "iter"}
+MATERIALIZERS = {"list", "set", "tuple", "frozenset", "sorted", "dict"}
+
+
+def _single_pass_rule(kind):
+    from .containers import MUTATORS, PROP_OF, analyse_mutators
+
+    prop = PROP_OF[kind]
+
+    @rule(f"{prop}.single-pass", [prop, "C08"],
+          f"no Trait{kind.capitalize()} mutator traverses an iterable argument "
+          f"twice on one path (a generator is exhausted by the first pass: "
+          f"the second pass - the real mutation or the computed delta - "
+          f"sees nothing)")
+    def _r(ctx, res, kind=kind):
+        n = 0
+        for k, m, fl in analyse_mutators(ctx):
+            if k != kind or m == "__init__":
+                continue
+            fn = fl.func
+            params = [p for p in fl.params[1:]]
+            g = fl.cfg
+            node_of = {}
+            for nd in g.nodes:
+                if nd.ast is None:
+                    continue
+                root = nd.ast.iter if nd.kind == "fornext" and hasattr(
+                    nd.ast, "iter") else nd.ast
+                if isinstance(root, (ast.For, ast.While, ast.If, ast.Try,
+                                     ast.With, ast.FunctionDef)):
+                    continue
+                for x in ast.walk(root):
+                    node_of.setdefault(id(x), nd.id)
+            par = {}
+            for p_ in ast.walk(fn):
+                for c_ in ast.iter_child_nodes(p_):
+                    par[id(c_)] = p_
+            key = fl.qualname
+            res.instance(key, fl.module.loc(fn), iterable_params=params)
+            n += 1
+            bad = None
+            for p in params:
+                occ = []
+                rebind_nodes = set()
+                iterated = False
+                # any assignment to the parameter's name re-binds it
+                for st in ast.walk(fn):
+                    if isinstance(st, (ast.Assign, ast.AugAssign)):
+                        tg = st.targets if isinstance(st, ast.Assign) \
+                            else [st.target]
+                        if any(isinstance(t, ast.Name) and t.id == p
+                               for t in tg) and id(st.value) in node_of:
+                            rebind_nodes.add(node_of[id(st.value)])
+                for x in ast.walk(fn):
+                    if not (isinstance(x, ast.Name) and x.id == p
+                            and isinstance(x.ctx, ast.Load)):
+                        continue
+                    up = par.get(id(x))
+                    if isinstance(up, ast.Starred):
+                        up = par.get(id(up))
+                    consuming = False
+                    starred = isinstance(par.get(id(x)), ast.Starred)
+                    if isinstance(up, ast.comprehension) and up.iter is x:
+                        consuming = iterated = True
+                    elif isinstance(up, ast.For) and up.iter is x:
+                        consuming = iterated = True
+                    elif isinstance(up, ast.Call) and up.func is not x:
+                        if starred or norm(up.func) in MATERIALIZERS or \
+                                norm(up.func).endswith("from_iterable"):
+                            iterated = True
+                        fname = norm(up.func)
+                        if fname in NON_CONSUMING or fname.split(".")[-1] \
+                                in ("item_validator", "key_validator",
+                                    "value_validator"):
+                            consuming = False
+                        else:
+                            consuming = True
+                    elif isinstance(up, ast.keyword):
+                        consuming = True
+                    if consuming and id(x) in node_of:
+                        occ.append((x, node_of[id(x)]))
+                if not iterated:
+                    continue        # never treated as an iterable
+                for i, (a, na) in enumerate(occ):
+                    for b, nb in occ[i + 1:]:
+                        first, second = (a, na), (b, nb)
+                        if na == nb:
+                            same_path = True
+                        else:
+                            ra = g.reachable(na)
+                            rb = g.reachable(nb)
+                            same_path = nb in ra or na in rb
+                            if na in rb and nb not in ra:
+                                first, second = (b, nb), (a, na)
+                        if not same_path:
+                            continue
+                        # re-bound in between (p = list(p), p = a | b, ...):
+                        # the second use sees the new object
+                        rf = g.reachable(first[1])
+                        if any(rn == first[1] or (rn in rf and second[1]
+                                                  in g.reachable(rn))
+                               for rn in rebind_nodes if rn is not None):
+                            continue
+                        if bad is None:
+                            bad = (p, first[0], second[0])
+            if bad is None:
+                res.oblige(True, key, "", "")
+            else:
+                p, a, b = bad
+                res.violation(f"{key}:traversed-twice:{p}",
+                              fl.module.loc(b),
+                              f"{key} traverses its argument `{p}` at "
+                              f"{fl.module.loc(a)} and again at "
+                              f"{fl.module.loc(b)} on one path: with a "
+                              f"generator the second traversal is empty, so "
+                              f"the mutation and the delta reported for it "
+                              f"disagree")
+        res.floor(len(MUTATORS[kind]))
+    return _r
+
+
+for _k in ("list", "dict", "set"):
+    _single_pass_rule(_k)
